@@ -1,6 +1,8 @@
 import OrbitModel.Proofs.SnapshotCodec
 import OrbitModel.Proofs.SnapshotRT
 import OrbitModel.Proofs.GenEq
+import OrbitModel.Proofs.SnapshotRace
+import OrbitModel.Proofs.SnapshotRaceEx
 /-!
 # C13 — a snapshot either is refused with an error or loads back to the same log, heads and state
 
@@ -47,6 +49,44 @@ theorem save_errors_or_loads_back {U : List Entry} {acl : Acl} {ser : Entry → 
   | some bs =>
     obtain ⟨L', h1, h2, h3, h4⟩ := save_load hde hdh hU hT hM hG hacc hid hs
     exact Or.inr ⟨bs, L', rfl, h1, h2, h3, h4⟩
+
+/-- **"for every database state" includes a store that is being written to**: `SaveSnapshot` takes no
+lock and reads the heads (state `L1`), then the length (`L2`), then the entries (`L3`) of a log that
+may grow at its end in between. Whatever arrives meanwhile, a snapshot that is written loads back as
+exactly the state at the first read — same entries, `Values()` and heads as `L1` — provided nothing
+that arrived before the length was read fills a hole of `L1` (`hclosed`; automatic for a log
+without holes, `saveRacing_load_closed`; with a hole filled the snapshot loads as a consistent
+larger log, `Snap.Example.hole_filled_is_loaded`). -/
+theorem snapshot_written_while_the_log_grows_loads_back {U : List Entry} {acl : Acl} {ser : Entry → List Nat}
+    {serHeader : Image → List Nat} {de : List Nat → Option Entry}
+    {deHeader : List Nat → Option (Nat × List Entry × Nat)} {L1 L2 L3 : Log} {x y : List Entry}
+    {bs : List Nat}
+    (hde : ∀ e, de (ser e) = some e)
+    (hdh : ∀ img, deHeader (serHeader img) = some (img.id, img.heads, img.entries.length))
+    (hU : HashDet U) (hT : TieFree U) (hM : ClockMono U) (hG : Good U L1)
+    (hacc : ∀ e ∈ L1.entries, acl.canAppend e = true ∧ e.sigOk = true)
+    (h2 : L2.entries = L1.entries ++ x) (h3 : L3.entries = L2.entries ++ y)
+    (hxU : ∀ e ∈ x, e ∈ U) (hid : ∀ e ∈ L2.entries, e.logId = L1.id)
+    (hclosed : ∀ p ∈ L1.entries, ∀ c ∈ x, c.hash ∈ p.next → c ∈ L1.entries)
+    (hs : saveRacing ser serHeader L1 L2 L3 = some bs) :
+    ∃ L', load acl de deHeader bs = some L' ∧ (∀ e, e ∈ L'.entries ↔ e ∈ L1.entries) ∧
+      values L' = values L1 ∧ sortedHeads L' = sortedHeads L1 :=
+  saveRacing_load hde hdh hU hT hM hG hacc h2 h3 hxU hid hclosed hs
+
+/-- the save of a store at rest is the special case `L1 = L2 = L3` -/
+theorem save_is_racing_save_at_rest (ser : Entry → List Nat) (serHeader : Image → List Nat) (L : Log) :
+    save ser serHeader L = saveRacing ser serHeader L L L := save_eq_saveRacing ser serHeader L
+
+/-- Why the ORDER of the three reads matters: were the entries read first and the length last (a
+plausible tidy-up of the Go code), every snapshot saved while the log grew would be written without
+an error and refused by the loader. -/
+theorem reordered_reads_would_write_unloadable_snapshots {acl : Acl} {ser : Entry → List Nat}
+    {serHeader : Image → List Nat} {de : List Nat → Option Entry}
+    {deHeader : List Nat → Option (Nat × List Entry × Nat)} {L1 L2 L3 : Log} {bs : List Nat}
+    (hdh : deHeader (serHeader (racingImage L2 L3)) = some (L2.id, sortedHeads L2, L3.entries.length))
+    (hgrow : L1.entries.length < L3.entries.length)
+    (hs : saveRacingReordered ser serHeader L1 L2 L3 = some bs) :
+    load acl de deHeader bs = none := saveRacingReordered_load_none hdh hgrow hs
 
 /-- Refutation witness for the pinned tree (finding F9a, repaired): a record of 65536 bytes was
 written with length 0, so the saved snapshot does not load back; the repaired encoder refuses it.
